@@ -738,7 +738,7 @@ pub fn check_main(sc: &DynScenario, o: &CheckOpts) -> i32 {
         let confirmed = if case.is_null() {
             false
         } else {
-            match exec_in_child(c.profile, sc.id, &case, Duration::from_secs(20)) {
+            match exec_in_child(c.profile, sc.id, &case, Duration::from_secs(180)) {
                 ExecResult::Fail(f) if f.oracle == c.failure.oracle => {
                     min_detail = Some(f.detail);
                     true
